@@ -672,7 +672,9 @@ class Class(CanContainImportsDocumentable):
             self._mro = compute_mro(self)
         except ValueError as e:
             self.report(str(e), 'mro')
-            self._mro = list(self.allbases(True))
+            # allbases() walks the hierarchy depth first and yields a class
+            # once per path leading to it: keep the first occurrence only.
+            self._mro = list(dict.fromkeys(self.allbases(True)))
     
     def _init_constructors(self) -> None:
         """
